@@ -17,6 +17,8 @@ structure W where
   cbSeq : Option (List Nat) := none
   home : Option Path := some sandbox
   tightReg : Bool := false
+  appReg : Bool := false
+  root : Path := sandbox ++ ofStr "/root"
   tightEn : Bool := true
   calls : Nat := 0
   nextFd : Nat := 0
@@ -28,7 +30,7 @@ def W.cfg (w : W) : Cfg :=
     cb := w.cbSeq.map fun l => fun i => if i < l.length then l.getD i 0 else l.getLastD 0
     home := w.home
     tightEn := w.tightEn
-    root := sandbox ++ ofStr "/root" }
+    root := w.root }
 
 def findConn (w : W) (id : Nat) : Option Conn := w.conns.find? (·.id == id)
 
@@ -42,7 +44,7 @@ def insertConn (c : Conn) : List Conn → List Conn
 def cid? (t : String) : Option Nat :=
   if t.startsWith "c" then
     match (t.drop 1).toString.toNat? with
-    | some n => if n < 16 then some n else none
+    | some n => if n < 64 then some n else none
     | none => none
   else none
 
@@ -150,6 +152,32 @@ def doSend (w : W) (id : Nat) (bytes : Bytes) : W × List String :=
       let (w, ls) := pump (c.cl.inbuf.length + 2) w id []
       (w, ls ++ ["."])
 
+/-- security types offered to a 3.8 client of a password-less screen: None, TightVNC's 16 while
+the extension is registered, the application's 77 while it is registered (sorted) -/
+def secTypes (w : W) : String :=
+  ",".intercalate ((["1"] ++ (if w.tightReg then ["16"] else []) ++ (if w.appReg then ["77"] else [])))
+
+/-- directories of the sandbox that exist from the start (harness `sandbox_make`); SetFtpRoot accepts
+only an existing directory -/
+def knownDirs : List Path :=
+  ["", "/root", "/root/rd", "/dir1", "/dir1/sub", "/dir2", "/root2"].map fun d => sandbox ++ ofStr d
+
+/-- rfbProcessArguments on options the core does not know: each is offered to rfbTightProcessArg
+(only while the extension is registered) -/
+def processArgs (w : W) : List String → W
+  | [] => w
+  | "-ftproot" :: p :: rest =>
+    if !w.tightReg then processArgs w (p :: rest)
+    else
+      let pb := ofStr p
+      let pb' := if pb.getLast? = some 47 then pb.dropLast else pb
+      if pb.length ≠ 0 ∧ pb.length ≤ Gen.C19.PATH_MAX - 1 ∧ (knownDirs.contains pb ∨ knownDirs.contains pb') then
+        processArgs { w with root := pb' } rest
+      else processArgs w (p :: rest)       -- not handled: the next word is looked at as an option
+  | "-disablefiletransfer" :: rest =>
+    if w.tightReg then processArgs { w with tightEn := false } rest else processArgs w rest
+  | _ :: rest => processArgs w rest
+
 def dstep (w : W) (toks : List String) : W × List String :=
   match toks with
   | "env" :: rest =>
@@ -175,8 +203,19 @@ def dstep (w : W) (toks : List String) : W × List String :=
   | ["tight", r, e] =>
     match natArg? "reg=" r, natArg? "en=" e with
     | some rv, some ev =>
-      ({ w with tightReg := (rv.toNat?.getD 0) != 0, tightEn := (ev.toNat?.getD 0) != 0 }, ["."])
+      let r := (rv.toNat?.getD 0) != 0
+      -- registering (again) points the root at the sandbox's root directory (harness: SetFtpRoot)
+      ({ w with tightReg := r, tightEn := (ev.toNat?.getD 0) != 0,
+                root := if r then sandbox ++ ofStr "/root" else w.root }, ["."])
     | _, _ => (w, ["bad-op", "."])
+  | ["app", r] =>
+    match natArg? "reg=" r with
+    | some rv => ({ w with appReg := (rv.toNat?.getD 0) != 0 }, ["."])
+    | none => (w, ["bad-op", "."])
+  | ["pwhome", _] => (w, ["."])
+  | "args" :: opts =>
+    let w := processArgs w opts
+    (w, [s!"= args root={pct w.root} en={b01 w.tightEn}", "."])
   | "conn" :: idt :: opts =>
     match cid? idt with
     | some id =>
@@ -187,10 +226,10 @@ def dstep (w : W) (toks : List String) : W × List String :=
         if tg ∧ !w.tightReg then
           -- security type 16 is not offered: "wrong security type", connection closed in handshake
           let c : Conn := { id := id, cl := { isOpen := false, viewOnly := vo } }
-          ({ w with conns := insertConn c w.conns }, [s!"= c{id} closed hs", "."])
+          ({ w with conns := insertConn c w.conns }, [s!"= c{id} closed hs sec={secTypes w}", "."])
         else
           let c : Conn := { id := id, cl := { viewOnly := vo, tightExt := tg, tight := if tg then some {} else none } }
-          ({ w with conns := insertConn c w.conns }, [s!"= c{id} open normal", "."])
+          ({ w with conns := insertConn c w.conns }, [s!"= c{id} open normal sec={secTypes w}", "."])
     | none => (w, ["bad-op", "."])
   | ["view", idt, v] =>
     match cid? idt with
